@@ -67,6 +67,7 @@ pub struct Scenario {
 const PROBES: &[&str] = &[
     "stream_hint_vague_upper_bound_only",
     "stream_hint_unknown",
+    "stream_not_fused",
     "clipped_fill_contiguous_slow_path",
     "clipped_fill_contiguous_fast_path",
     "initial_skip_gt_0",
@@ -143,20 +144,56 @@ impl Visitor for OpVisitor<'_> {
 /// A stream whose `size_hint()` is truthful but vague, like `filter`, `scan`, `from_fn` or a
 /// decoder of compressed data give: mode 1 = (0, upper bound of the inner stream), mode 2 =
 /// (0, None), anything else = the inner stream's own hint. Only `next` is forwarded.
-pub struct Vague<I> {
+pub struct Vague<I: Iterator> {
     pub it: I,
     pub mode: u8,
+    /// mode 3: items yielded so far (kept to be replayed after the end)
+    pub seen: Vec<I::Item>,
+    pub ended: bool,
 }
 
-impl<I: Iterator> Iterator for Vague<I> {
+impl<I: Iterator> Vague<I>
+where
+    I::Item: Clone,
+{
+    pub fn new(it: I, mode: u8) -> Self {
+        Vague { it, mode, seen: Vec::new(), ended: false }
+    }
+}
+
+/// Mode 3 is a stream that is **not fused** (`from_fn` over a state machine, a decoder that
+/// restarts): it ends — returns `None` — where the inner stream ends, and if it is polled again
+/// after that it yields again (its first items, reversed). A stream ends at its first `None`;
+/// whatever comes after is not part of it.
+impl<I: Iterator> Iterator for Vague<I>
+where
+    I::Item: Clone,
+{
     type Item = I::Item;
     fn next(&mut self) -> Option<I::Item> {
-        self.it.next()
+        if self.mode != 3 {
+            return self.it.next();
+        }
+        if self.ended {
+            return self.seen.pop();
+        }
+        match self.it.next() {
+            Some(x) => {
+                if self.seen.len() < 6 {
+                    self.seen.push(x.clone());
+                }
+                Some(x)
+            }
+            None => {
+                self.ended = true;
+                None
+            }
+        }
     }
     fn size_hint(&self) -> (usize, Option<usize>) {
         match self.mode {
             1 => (0, self.it.size_hint().1),
-            2 => (0, None),
+            2 | 3 => (0, None),
             _ => self.it.size_hint(),
         }
     }
@@ -169,18 +206,20 @@ pub fn hint_mode(op: &TOp) -> u8 {
         TOp::FillContiguous { area, colours, .. } => colours.len() as u64 + (area[0] as i64 + 3 * area[1] as i64 + 5 * area[2] as i64) as u64,
         _ => 0,
     };
-    // half of the streams keep their exact hint
-    [0, 1, 0, 2][(k % 4) as usize]
+    // half of the streams keep their exact hint; one in eight is not fused (finite streams only:
+    // an endless one has no end to resume after)
+    let endless = matches!(op, TOp::FillContiguous { repeat: Some(_), .. });
+    match [0u8, 1, 0, 2, 0, 1, 3, 2][(k % 8) as usize] {
+        3 if endless => 2,
+        m => m,
+    }
 }
 
 fn issue_one<C: SimColor>(top: &mut DynTarget<'_, C>, op: &TOp) -> Result<(), SimError> {
     {
         let mode = hint_mode(op);
         match op {
-            TOp::DrawIter(px) => top.draw_iter(Vague {
-                it: px.iter().map(|(x, y, c)| Pixel(Point::new(*x, *y), C::from_u32(*c))),
-                mode,
-            }),
+            TOp::DrawIter(px) => top.draw_iter(Vague::new(px.iter().map(|(x, y, c)| Pixel(Point::new(*x, *y), C::from_u32(*c))), mode)),
             TOp::FillContiguous { area, colours, repeat } => {
                 let a = crate::erased::rect_of(area);
                 let it = colours.iter().map(|c| C::from_u32(*c));
@@ -190,15 +229,12 @@ fn issue_one<C: SimColor>(top: &mut DynTarget<'_, C>, op: &TOp) -> Result<(), Si
                         crate::erased::set_colour_fold(false);
                         let res = top.fill_contiguous(
                             &a,
-                            Vague {
-                                it: it.chain(core::iter::repeat(C::from_u32(*r))),
-                                mode,
-                            },
+                            Vague::new(it.chain(core::iter::repeat(C::from_u32(*r))), mode),
                         );
                         crate::erased::set_colour_fold(true);
                         res
                     }
-                    None => top.fill_contiguous(&a, Vague { it, mode }),
+                    None => top.fill_contiguous(&a, Vague::new(it, mode)),
                 }
             }
             TOp::FillSolid { area, colour } => top.fill_solid(&crate::erased::rect_of(area), C::from_u32(*colour)),
@@ -644,6 +680,7 @@ fn op_probes(out: &mut RunOut, m: &StackModel, stack: &[Ad], op: &TOp, issued: &
             match hint_mode(op) {
                 1 => out.probes |= probe("stream_hint_vague_upper_bound_only"),
                 2 => out.probes |= probe("stream_hint_unknown"),
+                3 => out.probes |= probe("stream_not_fused"),
                 _ => {}
             }
             let a = R::xywh(area[0] as i64, area[1] as i64, area[2] as i64, area[3] as i64);
